@@ -98,7 +98,10 @@ func readBlobString(i *bufio.Reader) (m RedisMessage, err error) {
 				m.setString(sb.String())
 				return m, nil
 			}
-			sb.Grow(int(length))
+			if length < 0 {
+				return RedisMessage{}, errors.New(unexpectedNegLength)
+			}
+			sb.Grow(int(min(length, maxPrealloc)))
 			if _, err = io.CopyN(&sb, i, length); err != nil {
 				return RedisMessage{}, err
 			}
@@ -211,14 +214,36 @@ func readB(i *bufio.Reader) (*byte, int64, error) {
 	if length == -1 {
 		return nil, 0, errOldNull
 	}
-	bs := make([]byte, length)
-	if _, err = io.ReadFull(i, bs); err != nil {
+	if length < 0 {
+		return nil, 0, errors.New(unexpectedNegLength)
+	}
+	bs, err := readN(i, length)
+	if err != nil {
 		return nil, 0, err
 	}
 	if _, err = i.Discard(2); err != nil {
 		return nil, 0, err
 	}
 	return unsafe.SliceData(bs), int64(len(bs)), nil
+}
+
+// readN reads exactly length bytes. The buffer is sized from the declared length only up to maxPrealloc;
+// beyond that it grows with the bytes actually received, so a peer cannot make us allocate memory it never sends.
+func readN(i *bufio.Reader, length int64) ([]byte, error) {
+	if length <= maxPrealloc {
+		bs := make([]byte, length)
+		_, err := io.ReadFull(i, bs)
+		return bs, err
+	}
+	bs := make([]byte, 0, maxPrealloc)
+	for int64(len(bs)) < length {
+		n := int(min(length-int64(len(bs)), maxPrealloc))
+		bs = append(bs, make([]byte, n)...)
+		if _, err := io.ReadFull(i, bs[len(bs)-n:]); err != nil {
+			return nil, err
+		}
+	}
+	return bs, nil
 }
 
 func readE(i *bufio.Reader) (*RedisMessage, int64, error) {
@@ -236,13 +261,16 @@ func readE(i *bufio.Reader) (*RedisMessage, int64, error) {
 }
 
 func readA(i *bufio.Reader, length int64) (*RedisMessage, int64, error) {
-	var err error
-
-	msgs := make([]RedisMessage, length)
-	for n := range length {
-		if msgs[n], err = readNextMessage(i); err != nil {
+	if length < 0 {
+		return nil, 0, errors.New(unexpectedNegLength)
+	}
+	msgs := make([]RedisMessage, 0, min(length, maxPreallocMsgs))
+	for range length {
+		m, err := readNextMessage(i)
+		if err != nil {
 			return nil, 0, err
 		}
+		msgs = append(msgs, m)
 	}
 	return unsafe.SliceData(msgs), length, nil
 }
@@ -386,7 +414,14 @@ func flushCmd(o *bufio.Writer, cmd []string) (err error) {
 }
 
 const (
-	unexpectedNoCRLF   = "received unexpected simple string message ending without CRLF"
-	unexpectedNumByte  = "received unexpected number byte: "
-	unknownMessageType = "received unknown message type: "
+	// maxPrealloc and maxPreallocMsgs bound what is allocated from a declared length before the data arrives
+	maxPrealloc     = 1 << 20
+	maxPreallocMsgs = 1 << 14
+)
+
+const (
+	unexpectedNegLength = "received unexpected negative length"
+	unexpectedNoCRLF    = "received unexpected simple string message ending without CRLF"
+	unexpectedNumByte   = "received unexpected number byte: "
+	unknownMessageType  = "received unknown message type: "
 )
